@@ -19,7 +19,7 @@ UNIT_SETS = ["logic", "calls", "select", "lits", "strs"]
 
 def _one(us: str, max_units: int, export_upto: int, name: str, workers: int):
     cfg = (f"SPECIFICATION Spec\nCONSTANT UnitSet = \"{us}\"\nCONSTANT MaxUnits = {max_units}\nCONSTANT ExportAllUpTo = {export_upto}\n"
-           "INVARIANT T15_NoCrash\nINVARIANT T15_Accept\nINVARIANT T15_Reject\nINVARIANT Export\nCHECK_DEADLOCK FALSE\n")
+           "INVARIANT T15_NoCrash\nINVARIANT T15_Accept\nINVARIANT T15_Reject\nINVARIANT T16\nINVARIANT Export\nCHECK_DEADLOCK FALSE\n")
     res = core.require_ok(core.run_tlc("MC_Parser", cfg, name=f"{name}_{us}", workers=workers, heap="6g", timeout=5400),
                           f"MC_Parser {us}")
     gens = []
@@ -47,7 +47,7 @@ def unit_texts(tier: str, name: str, sets=UNIT_SETS, deep: bool = False) -> Tupl
     runs = []
     for us, res, g in done:
         gens += g
-        runs.append((f"MC_Parser.tla units={us} n<={max_units}: T15_NoCrash, T15_Accept, T15_Reject", res))
+        runs.append((f"MC_Parser.tla units={us} n<={max_units}: T15_NoCrash, T15_Accept, T15_Reject, T16", res))
     return gens, runs
 
 
@@ -117,3 +117,14 @@ def kind_of(jp, err: BaseException) -> str:
         if type(err) is cls:
             return k
     return "other:" + type(err).__name__
+
+
+# the documents of MC_Parser!MCDocSeq, in order
+MC_DOCS = [
+    {"a": 1, "b": [1, {"a": "a"}], "c": None},
+    [1, [0, 1], {"a": [1]}, "a", True],
+    {"a": {"a": 1, "b": "c"}, "b": "b"},
+    [{"a": 1}, {"a": 0, "b": 1}, {"a": "a"}, {"a": True}, {"a": None}, {"a": [1]}, 1, "c", [], {}],
+    1,
+    "a",
+]
